@@ -371,7 +371,14 @@ pub async fn run() {
         PANICKED.store(false, Ordering::SeqCst);
         OP_INDEX.fetch_add(1, Ordering::SeqCst);
         let f: Vec<&str> = line.split_whitespace().collect();
-        let mut res = node.op(&f).await;
+        // a panic inside the SDK (client side) must not take the harness down
+        let mut res = {
+            use futures::FutureExt;
+            match std::panic::AssertUnwindSafe(node.op(&f)).catch_unwind().await {
+                Ok(r) => r,
+                Err(_) => "client-panic".to_string(),
+            }
+        };
         if PANICKED.load(Ordering::SeqCst) {
             res = format!("panic ({res})");
         }
